@@ -13,7 +13,10 @@ close() is called - a handle that is merely dropped stays open, as on an OS with
 order of prune() is the one of the write sequence (real clocks can tie); random runs keep the real clock.
 
 Files of an earlier run: the paths listed in `stale` exist before the run and hold the single record 0.
-Event "run":  {ev, tid, src: gen|fq|rand|fqrand, method, K, mh, pe, bad, tfs, stale,
+Records: distinct positive integers, one line each; x = 0 is an EMPTY record (writes nothing, the file must still exist).
+With `paired` (fqrand only) FastqHandle.write gets (R1, R2): mate 2 goes to path id p + 500 with payload x + 100000; every inner
+HandleLimiter.write call is recorded as its own observation (the bound method is wrapped by the driver).
+Event "run":  {ev, tid, src: gen|fq|rand|fqrand, method, K, mh, pe, bad, tfs, stale, paired,
                ops:[{op:"w"|"c", p, x, raised, att:[{p, append, nopen, ok}], open:[paths with an OS descriptor],
                      tracked:[paths with a handle in openHandles]}],
                final:[{p, recs:[..], ok}], fds_end, exp:{has, ops:[{raised, open}], disk:[[..]..]}}
@@ -173,7 +176,7 @@ class Rec:
         self.x = x
 
     def __str__(self):
-        return '%d\n' % self.x
+        return '%d\n' % self.x if self.x else ''        # x = 0: an empty record (writes nothing, but the file must exist)
 
 
 def run_scenario(hl_mod, fh_mod, workdir, scn, src, method, det_clock):
@@ -192,7 +195,11 @@ def run_scenario(hl_mod, fh_mod, workdir, scn, src, method, det_clock):
     def cell_of(p):
         return p - 1 if int_bi else 'c%d' % p
 
+    paired = bool(scn.get('paired')) and via_fq      # (R1, R2) pairs: two limiter writes per FastqHandle.write call
+
     def path_of(p):
+        if via_fq and p > 500:                       # mate-2 file of cell p - 500
+            return '%s.%s.%s.R2.fastq.gz' % (prefix, cell_of(p - 500), mx)
         if via_fq:
             return '%s.%s.%s.R1.fastq.gz' % (prefix, cell_of(p), mx)
         return os.path.join(workdir, 'f%d.%s' % (p, 'gz' if method == 1 else 'txt'))
@@ -204,6 +211,8 @@ def run_scenario(hl_mod, fh_mod, workdir, scn, src, method, det_clock):
 
     for p in set(o['p'] for o in scn['ops'] if o['op'] == 'w') | ({scn['bad']} if scn['bad'] else set()) | set(scn.get('stale', [])):
         ids[path_of(p)] = p
+        if paired and p <= 500:
+            ids[path_of(p + 500)] = p + 500
     # files of an "earlier run" that already exist at some target paths: one stale record 0
     for p in scn.get('stale', []):
         if via_fq or method == 1:
@@ -225,23 +234,48 @@ def run_scenario(hl_mod, fh_mod, workdir, scn, src, method, det_clock):
         lim = hl_mod.HandleLimiter(maxHandles=scn['mh'], pruneEvery=scn['pe'], compressionLevel=1)
     ops = []
     sink = io.StringIO()
+
+    def observe(op, p, x, raised):
+        ops.append({'op': op, 'p': p, 'x': x, 'raised': raised, 'att': inj.att, 'open': inj.open_paths(),
+                    'tracked': sorted(path_id(k) for k, v in lim.openHandles.items() if 'handle' in v)})
+
+    if via_fq:
+        # FastqHandle.write makes one HandleLimiter.write per mate: record every inner call as its own observation
+        inner_write = lim.write
+
+        def recording_write(path, string, method=None, forceAppend=False):
+            inj.att = []
+            x = int(string) if string.strip().isdigit() else 0
+            try:
+                inner_write(path, string, method=method, forceAppend=forceAppend)
+            except Exception as ex:
+                observe('w', path_id(path), x, type(ex).__name__)
+                raise
+            observe('w', path_id(path), x, 'none')
+        lim.write = recording_write
     for o in scn['ops']:
         inj.att = []
         raised = 'none'
+        n_before = len(ops)
         try:
             with contextlib.redirect_stdout(sink):
                 if o['op'] == 'w':
                     if via_fq:
-                        fh.write([Rec(cell_of(o['p']), o['x'], mx)])
+                        recs = [Rec(cell_of(o['p']), o['x'], mx)]
+                        if paired:
+                            recs.append(Rec(cell_of(o['p']), o['x'] + 100000 if o['x'] else 0, mx))
+                        fh.write(recs)
                     else:
-                        lim.write(path_of(o['p']), '%d\n' % o['x'], method=method)
+                        lim.write(path_of(o['p']), '%d\n' % o['x'] if o['x'] else '', method=method)
                 else:
                     (fh or lim).close()
         except Exception as ex:                      # an exception of the code under test is an observation
             raised = type(ex).__name__
-        ops.append({'op': o['op'], 'p': o['p'], 'x': o['x'], 'raised': raised, 'att': inj.att,
-                    'open': inj.open_paths(),
-                    'tracked': sorted(path_id(k) for k, v in lim.openHandles.items() if 'handle' in v)})
+        if via_fq and o['op'] == 'w':
+            if raised != 'none' and not any(q['raised'] != 'none' for q in ops[n_before:]):
+                observe('w', o['p'], o['x'], raised)  # raised outside the limiter (nothing was attempted for this record)
+        else:
+            observe(o['op'], o['p'], o['x'], raised)
     end_raised = 'none'
     try:
         with contextlib.redirect_stdout(sink):
@@ -273,11 +307,11 @@ def random_scenario(rng, big):
             ops.append({'op': 'c', 'p': 0, 'x': 0})
         else:
             p = rng.choice(hot) if rng.random() < 0.3 else rng.randint(1, npaths)
-            ops.append({'op': 'w', 'p': p, 'x': i + 1})
+            ops.append({'op': 'w', 'p': p, 'x': 0 if rng.random() < 0.06 else i + 1})
     for _ in range(rng.choice([0, 0, 1, 1, 2, 3])):
         tfs.add(rng.randint(1, n + 2))
     stale = sorted(p for p in range(1, npaths + 1) if rng.random() < 0.4) if rng.random() < 0.7 else []
-    return {'K': K, 'mh': mh, 'pe': pe, 'bad': bad, 'tfs': sorted(tfs), 'ops': ops, 'stale': stale}
+    return {'K': K, 'mh': mh, 'pe': pe, 'bad': bad, 'tfs': sorted(tfs), 'ops': ops, 'stale': stale, 'paired': rng.random() < 0.5}
 
 
 def split_case(rng, workdir, k):
@@ -287,7 +321,7 @@ def split_case(rng, workdir, k):
     os.makedirs(workdir)
     nvals = rng.randint(1, 6)
     maxh = rng.choice([1, 1, 2, 2, 3, nvals, nvals + 1])
-    n = rng.randint(1, 24)
+    n = rng.choice([0, 1, 1, 2]) if rng.random() < 0.15 else rng.randint(1, 24)     # also the empty and the one-record input
     header = bamgen.make_header([('chrA', 10000)])
     vals = [rng.choice([0] + list(range(1, nvals + 1)) * 3) for _ in range(n)]     # 0 = record without the tag
     # distinct raw tag values may sanitise (get_valid_filename) to the same file name: fmap[v] = file of raw value v
@@ -305,13 +339,29 @@ def split_case(rng, workdir, k):
     for v, f in enumerate(fmap, 1):
         rawname[v] = forms[seen_f.get(f, 0)] % f
         seen_f[f] = seen_f.get(f, 0) + 1
+    int_tags = rng.random() < 0.25
+    if int_tags:
+        # integer tag values as written by the taggers (e.g. a cell index), starting at 0; no collisions: file <v-1>.bam
+        fmap = list(range(1, nvals + 1))
+        rawname = {v: v - 1 for v in fmap}
     reads = []
     for i, v in enumerate(vals):
         reads.append(bamgen.make_read(header, 'r%d' % (i + 1), 'chrA', 10 * i, 'ACGT',
                                       tags={'SM': rawname[v]} if v else {'XX': 1}))
+    def out_name(f):
+        return '%d.bam' % (f - 1) if int_tags else 'cell_%d.bam' % f
     inp = os.path.join(workdir, 'in.bam')
     bamgen.write_bam(inp, header, reads, sort=False)
     outdir = os.path.join(workdir, 'out') + '/'
+    # a second run into the same output folder: a stale (here: garbage) file of an earlier run sits at the path of an
+    # output file this run produces; it must be replaced
+    present = sorted(set(fmap[v - 1] for v in vals if v))
+    stale_file = 0
+    if present and rng.random() < 0.3:
+        stale_file = rng.choice(present)
+        os.makedirs(outdir)
+        with REAL_OPEN(os.path.join(outdir, out_name(stale_file)), 'wb') as g:
+            g.write(b'stale bytes of an earlier run, not a BAM file')
     args = [inp, 'SM', '-o_folder', outdir, '-max_handles', str(maxh)]
     if k % 40 == 0:
         # unmodified command line in a child process (`-m`): its __main__ must be the module itself because the
@@ -354,9 +404,13 @@ def split_case(rng, workdir, k):
             except Exception:
                 ok = False
             v = fn[:-4]
-            out.append({'v': int(v[5:]) if v.startswith('cell_') and v[5:].isdigit() else -1, 'idx': idx, 'ok': ok})
+            if int_tags:
+                fid = int(v) + 1 if v.isdigit() else -1
+            else:
+                fid = int(v[5:]) if v.startswith('cell_') and v[5:].isdigit() else -1
+            out.append({'v': fid, 'idx': idx, 'ok': ok})
     shutil.rmtree(workdir)
-    return {'ev': 'split', 'max_handles': maxh, 'recs': vals, 'fmap': fmap, 'passes': passes[0], 'raised': raised, 'out': out}
+    return {'ev': 'split', 'max_handles': maxh, 'recs': vals, 'fmap': fmap, 'int_tags': int_tags, 'stale_file': stale_file, 'passes': passes[0], 'raised': raised, 'out': out}
 
 
 def main():
@@ -373,7 +427,8 @@ def main():
 
         def header(scn, src, method):
             return {'ev': 'run', 'tid': tid, 'src': src, 'method': method, 'K': scn['K'], 'mh': scn['mh'], 'pe': scn['pe'],
-                    'bad': scn['bad'], 'tfs': sorted(scn['tfs']), 'stale': sorted(scn.get('stale', []))}
+                    'bad': scn['bad'], 'tfs': sorted(scn['tfs']), 'stale': sorted(scn.get('stale', [])),
+                    'paired': bool(scn.get('paired')) and src.startswith('fq')}
 
         # 1. TLC-generated behaviours of the design (spec -> code)
         scns = json.load(REAL_OPEN(scn_file)) if scn_file else []
